@@ -82,7 +82,9 @@ type c09ToolList struct {
 	Shape  string        `json:"shape"` // alternate|distinct|mixed (how lists are dealt to the runs; informational)
 }
 
-func c09IsOptKind(kind string) bool { return kind == "optshare" || kind == "toollist" || kind == "cbshare" || kind == "inflight" }
+func c09IsOptKind(kind string) bool {
+	return kind == "optshare" || kind == "toollist" || kind == "cbshare" || kind == "inflight" || kind == "branchmix"
+}
 
 // ---- generators ----
 
@@ -953,7 +955,12 @@ func c09EvaluateX(ctx *vh.Ctx, c *c09Case) error {
 	reps := c09Reps(c)
 	// ---- model ----
 	var oc any
-	if c.Kind == "inflight" {
+	if c.Kind == "branchmix" {
+		if c.BM == nil {
+			return fmt.Errorf("branchmix case without description")
+		}
+		oc = c09BMOracleCase(c)
+	} else if c.Kind == "inflight" {
 		if c.FL == nil {
 			return fmt.Errorf("inflight case without description")
 		}
@@ -996,6 +1003,9 @@ func c09EvaluateX(ctx *vh.Ctx, c *c09Case) error {
 		if c.Kind == "cbshare" {
 			return c09CbExpected(c, i, ans.Alone[i])
 		}
+		if c.Kind == "branchmix" {
+			return c09BMExpected(c, i, ans.Alone[i])
+		}
 		return ans.Alone[i]
 	}
 
@@ -1010,7 +1020,9 @@ func c09EvaluateX(ctx *vh.Ctx, c *c09Case) error {
 		ctx.Res.Dist(fmt.Sprintf("goroutines:%d", len(c.Calls)))
 	}
 	shape := ""
-	if c.Kind == "inflight" {
+	if c.Kind == "branchmix" {
+		shape = c09BMAccount(ctx, c)
+	} else if c.Kind == "inflight" {
 		shape = c09FlightAccount(ctx, c)
 	} else if c.Kind == "cbshare" {
 		shape = c09CbAccount(ctx, c)
@@ -1176,6 +1188,12 @@ func c09EvaluateX(ctx *vh.Ctx, c *c09Case) error {
 			case o.Err == "gate-timeout":
 				sig = "C09:hang:" + c.Kind + ":gate"
 				what = "a run waited 15 s at a barrier of the harness for runs that neither arrived nor finished"
+			case c.Kind == "branchmix" && o.Err == "" && c09BMForeignTarget(c, i, o.Out):
+				sig = "C09:interference:branchmix:delivered-to-another-runs-branch-target"
+				what = "the run delivered the output of the branching node to a branch target that its own conditions did not select (another concurrent run selected it)"
+			case c.Kind == "branchmix":
+				sig = "C09:interference:branchmix:output"
+				what = "the successors the run delivered to are not the direct ones plus the targets its own branch conditions selected"
 			case c.Kind == "inflight" && o.Err == "others-held-up":
 				sig = "C09:liveness:inflight:hold-at=" + c.FL.Hold + ":runs-waited-for-parked-run"
 				what = "while one run was parked inside its own user code (" + c.FL.Hold + ") the other runs of the compiled object, started after it had parked, did not return within 12 s: the runs wait for each other"
